@@ -3601,8 +3601,12 @@ class SSHClientConnection(SSHConnection):
 
         self._client_host_keys: List[_ClientHostKey] = []
 
+        # The signature algorithm chosen for a key is stored in its key
+        # pair, so don't share these objects with other connections which
+        # were given the same list of loaded keys
         self._client_keys: List[SSHKeyPair] = \
-            list(options.client_keys) if options.client_keys else []
+            [copy.copy(key) for key in options.client_keys] \
+            if options.client_keys else []
         self._saved_rsa_key: Optional[_ClientHostKey] = None
 
         if options.preferred_auth != ():
